@@ -66,10 +66,27 @@ class MultiHarness(symex.Harness):
         order = o.get("order") or list(range(self.M))
         conds = {}
         for pos in order:
-            c = R["Conditional"](self.sb.side("B", pos), self.sb.side("A", pos), "c%d" % keys[pos])
+            c = R["Conditional"](self.side(o, "B", pos), self.side(o, "A", pos), "c%d" % keys[pos])
             c.index = keys[pos]
             conds[keys[pos]] = c
         return R["BeliefBase"](list(CTX.atom_names), conds, "sym")
+
+    def side(self, o, which, pos):
+        """Formula for one side of conditional `pos` as presented to operator o: the same
+        truth table, possibly spelled differently (o['shapes'] uses only table-preserving
+        shapes such as 'and_top', 'or_bot', 'top_and', 'dneg')."""
+        shp = (o.get("shapes") or {}).get((which, pos))
+        if not shp:
+            return self.sb.side(which, pos)
+        tab = {"A": self.sb.A, "B": self.sb.B}[which][pos]
+        name = "%s%d" % (which, pos)
+        if shp == "dneg":
+            return tt.Not(tt.Not(tt.Leaf(name, tab)))
+        if shp == "and_self":
+            return tt.And(tt.Leaf(name, tab), tt.Leaf(name, tab))
+        if shp == "or_self":
+            return tt.Or(tt.Leaf(name, tab), tt.Leaf(name, tab))
+        return ops.build_shape(shp, name, tab, self.sb)
 
     def run(self, eng):
         R = ops.R
@@ -92,6 +109,11 @@ class MultiHarness(symex.Harness):
                 except AssertionError:
                     refused += 1
                     ans.append(None)
+                    continue
+                except Exception as e:  # noqa: BLE001
+                    if isinstance(e, symex.Inconclusive):
+                        raise
+                    ans.append([("exc", type(e).__name__, str(e)[:120])] * len(qs))
                     continue
                 for i, (c, a) in enumerate(qs):
                     q = R["Conditional"](c, a, "q%d" % i)
@@ -151,8 +173,8 @@ class MultiHarness(symex.Harness):
             order = o.get("order") or list(range(self.M))
             base = []
             for pos in order:
-                c = concretise.formula_tree(self.sb.side("B", pos), lv)
-                a = concretise.formula_tree(self.sb.side("A", pos), lv)
+                c = concretise.formula_tree(self.side(o, "B", pos), lv)
+                a = concretise.formula_tree(self.side(o, "A", pos), lv)
                 base.append([keys[pos], c, a, "(%s|%s)" % (concretise.tree_to_text(c), concretise.tree_to_text(a))])
             steps.append({"op": "manager", "id": "m%d" % oi, "base": base, "system": o["system"],
                           "pmaxsat": o.get("pm", "rc2"), "weakly": o.get("weakly", False)})
